@@ -2,6 +2,7 @@ package props
 
 import (
 	"fmt"
+	"strings"
 	"testing"
 
 	"pgregory.net/rapid"
@@ -370,5 +371,165 @@ func TestC07(t *testing.T) {
 	hx.Run(t, hx.Prop[exprCase]{
 		ID: "C07", Sub: "expr", Rule: c07Rule, Checks: hx.Scale(20000, 8000000),
 		Gen: genExprCase, Judge: judgeExprCase,
+	})
+}
+
+// ---- expressions near the length limit: refused or exact, never something else
+
+type longExprCase struct {
+	T      int    // number of tokens of the expression after substitution
+	Split  []int  // which powers of two are written as two halves (variety)
+	Signs  []bool // sign of each term (true: minus)
+	Where  string // "equ", "operand", "assert_zero", "assert_one"
+	Tail   string // "", "+7", "-3": appended after the T tokens
+	Legacy bool
+}
+
+func genLongExprCase(t *rapid.T) longExprCase {
+	var c longExprCase
+	switch rapid.IntRange(0, 3).Draw(t, "tk") {
+	case 0:
+		c.T = rapid.IntRange(4085, 4106).Draw(t, "T")
+	case 1:
+		c.T = rapid.SampledFrom([]int{4095, 4096, 4097, 4094, 4098, 2047, 2048, 8191, 8192}).Draw(t, "T")
+	default:
+		c.T = rapid.IntRange(3, 9000).Draw(t, "T")
+	}
+	c.Split = rapid.SliceOfN(rapid.IntRange(2, 11), 0, 4).Draw(t, "split")
+	c.Signs = rapid.SliceOfN(rapid.Bool(), 24, 24).Draw(t, "signs")
+	c.Where = rapid.SampledFrom([]string{"equ", "equ", "operand", "assert_zero", "assert_one"}).Draw(t, "where")
+	c.Tail = rapid.SampledFrom([]string{"", "+7", "-3", "+7", "*2"}).Draw(t, "tail")
+	c.Legacy = rapid.IntRange(0, 3).Draw(t, "legacy") == 0
+	return c
+}
+
+// longExprText builds the EQU chain a1 = 1, a(k+1) = a(k)+a(k) (a(k) has 2^k-1
+// tokens and the value 2^(k-1)) and an expression over it that has exactly T
+// tokens once the symbols are substituted, followed by Tail; it returns the
+// source of the definitions, the expression and its exact value.
+func longExprText(c longExprCase) (defs, expr string, value int64) {
+	var sb strings.Builder
+	sb.WriteString("a1 equ 1\n")
+	for k := 2; k <= 12; k++ {
+		fmt.Fprintf(&sb, "a%d equ a%d+a%d\n", k, k-1, k-1)
+	}
+	// T = (leading sign) + sum of 2^j over the terms - 1 ... see the comment in DESIGN.md
+	need := c.T + 1
+	lead := false
+	if c.T%2 == 0 {
+		need = c.T
+		lead = true
+	}
+	var terms []int
+	for need >= 1<<12 {
+		terms = append(terms, 12)
+		need -= 1 << 12
+	}
+	for j := 11; j >= 1; j-- {
+		if need&(1<<j) != 0 {
+			terms = append(terms, j)
+		}
+	}
+	for _, j := range c.Split {
+		for i, tj := range terms {
+			if tj == j && len(terms) < 24 {
+				terms[i] = j - 1
+				terms = append(terms, j-1)
+				break
+			}
+		}
+	}
+	var eb strings.Builder
+	var toks []rc.Tok
+	for i, j := range terms {
+		minus := i < len(c.Signs) && c.Signs[i]
+		switch {
+		case i == 0 && !lead:
+		case minus:
+			eb.WriteString("-")
+			toks = append(toks, rc.OP("-"))
+		default:
+			eb.WriteString("+")
+			toks = append(toks, rc.OP("+"))
+		}
+		fmt.Fprintf(&eb, "a%d", j)
+		toks = append(toks, rc.ID(fmt.Sprintf("a%d", j)))
+	}
+	switch c.Tail {
+	case "+7":
+		toks = append(toks, rc.OP("+"), rc.N(7))
+	case "-3":
+		toks = append(toks, rc.OP("-"), rc.N(3))
+	case "*2":
+		toks = append(toks, rc.OP("*"), rc.N(2))
+	}
+	// the value comes from the harness's own evaluator, on the substituted text
+	equs := []rc.Item{{Kind: rc.KEqu, Labels: []string{"a1"}, Expr: rc.Toks(rc.N(1))}}
+	for k := 2; k <= 12; k++ {
+		prev := fmt.Sprintf("a%d", k-1)
+		equs = append(equs, rc.Item{Kind: rc.KEqu, Labels: []string{fmt.Sprintf("a%d", k)}, Expr: rc.Toks(rc.ID(prev), rc.OP("+"), rc.ID(prev))})
+	}
+	bv, err := rc.ValueOf(toks, equs, rc.Config{CoreSize: 1 << 34, Length: 100, Processes: 8000, Distance: 100})
+	if err != nil || !bv.IsInt64() {
+		panic("INCOMPLETE: the harness cannot evaluate its own long expression")
+	}
+	return sb.String(), eb.String() + c.Tail, bv.Int64()
+}
+
+func judgeLongExprCase(c longExprCase, rec *hx.Rec) string {
+	if c.T < 3 || c.T > 20000 || len(c.Signs) < 24 {
+		return "malformed case"
+	}
+	defs, expr, v := longExprText(c)
+	cfg := gen.AsmConfig{Legacy: c.Legacy, CoreSize: 1 << 34, Length: 100, Distance: 100, Processes: 8000}
+	m := int64(1) << 34
+	want := ((v % m) + m) % m
+	var text string
+	mode := "#"
+	switch c.Where {
+	case "equ":
+		text = defs + "b equ " + expr + "\ndat #0, " + mode + "b\n"
+	case "operand":
+		text = defs + "dat #0, " + mode + expr + "\n"
+	case "assert_zero":
+		text = defs + fmt.Sprintf("z equ %s\n;assert z-(%d)\ndat #0, #0\n", expr, v)
+	case "assert_one":
+		text = defs + fmt.Sprintf("z equ %s\n;assert z-(%d)\ndat #0, #0\n", expr, v-1)
+	default:
+		return "malformed case"
+	}
+	wd, err, pm := compile(text, asmG(cfg))
+	if pm != "" {
+		return "CompileWarrior panicked: " + clip(pm)
+	}
+	outcome := "refused"
+	if err == nil {
+		outcome = "evaluated"
+		switch c.Where {
+		case "equ", "operand":
+			if len(wd.Code) != 1 || int64(wd.Code[0].B) != want {
+				return fmt.Sprintf("an expression of %d tokens (+ %q) with the exact value %d assembled to %v: neither refused nor right\nexpression: %s", c.T, c.Tail, v, wd.Code, clip(expr))
+			}
+		case "assert_zero":
+			return fmt.Sprintf("`;assert z-(%d)` with z an expression of %d tokens (+ %q) whose exact value is %d was accepted: neither refused for its length nor for being zero\nexpression: %s", v, c.T, c.Tail, v, clip(expr))
+		}
+	}
+	if rec != nil {
+		cl := []string{outcome, "where_" + c.Where}
+		if c.T >= 4090 && c.T <= 4100 {
+			cl = append(cl, "within_5_tokens_of_4096")
+		}
+		rec.Case(c.T >= 4000 && c.T <= 4200, hx.HashJSON(c), func() any {
+			return map[string]any{"tokens": c.T, "tail": c.Tail, "where": c.Where, "value": v, "outcome": outcome}
+		}, cl...)
+	}
+	return ""
+}
+
+func TestC07_NearLimit(t *testing.T) {
+	hx.Run(t, hx.Prop[longExprCase]{
+		ID: "C07", Sub: "nearlimit", Checks: hx.Scale(400, 200000),
+		Rule: "long expressions: over the chain a1 = 1, a(k+1) = a(k)+a(k) an expression is built that has exactly T tokens after substitution (T mostly within 10 of 4096, also 2047/2048/8191/8192 and anything up to 9000), optionally followed by +7, -3 or *2, with drawn signs; it stands as an EQU value, directly as an operand, or in an `;assert` whose condition is exactly zero or one. The assembler may refuse it (there is a length limit) or must evaluate it exactly (field = value mod 2^34; the zero assert refused): never a third thing. Non-trivial: T within 4000..4200; distinct by case hash.",
+		Gen: genLongExprCase, Judge: judgeLongExprCase,
 	})
 }
